@@ -14,5 +14,6 @@ SV_Win == {S(0, 1, 2, 1), S(1, 2, 2, 1), S(MaxWin, 2, 2, 1)}
 SV_Limits == {S(2, 1, 1, 0), S(2, 2, 2, 1), S(1, 1, 2, 0)}
 SV_Gen == {S(w, f, m, 1) : w \in {0, 1, 2, 4}, f \in {1, 2}, m \in {1, 2}} \cup {S(2, 1, 2, 0)}
 HA_Plain == {<<1, TRUE, -1>>}
+HA_Upd == {<<1, TRUE, u>> : u \in {-1, 0, 1}}
 HA_All == {<<n, eh, upd>> : n \in HdrLens, eh \in BOOLEAN, upd \in {-1, 0, 1}}
 =============================================================================
